@@ -3,7 +3,7 @@
      DepthSort.v  the progress loop of depth_sorted_composite_glyphs / the repaired entry check
      Cycles.v     rank function exists <-> no cycle; the check rejects exactly the cyclic graphs
      Walks.v      each walk: termination bounds, divergence on the 2-cycle
-     Depth.v      recursion depth of bbox_of_composite = nesting depth (unbounded)
+     Depth.v      the repaired defect: recursion depth of the former bbox_of_composite = nesting depth
      Resolve.v    pipeline invariant, re-queue loop of resolve_inconsistencies
      Pipeline.v   GlyphOrderWork::exec + back end as a whole
    This file re-exports them and packages the statements used by Props.v. *)
